@@ -177,6 +177,39 @@ mod inherit {
 		}
 	}
 
+	/// One concrete hierarchy configuration; the queried field name is a symbolic byte.
+	#[inline(always)]
+	pub fn cfg_body(in_c: bool, in_p: bool, in_q: bool, q_first: bool) {
+		let n = sym::u8();
+		sym::assume(n >= 1 && n < 0x80 && !matches!(n, b'.' | b';' | b'[' | b'/'));
+		let nb = [n];
+		// SAFETY: one ASCII byte that is a valid unqualified name.
+		let qname = unsafe { FieldNameSlice::from_inner_unchecked(JavaStr::from_semi_utf8_unchecked(&nb)) };
+		let (to_c, to_p, to_q) = (oc("c").to_owned(), oc("p").to_owned(), oc("q").to_owned());
+		let entry = |to: &'static str| -> hook::MemberEntry<'static, FieldNameSlice, FieldDescriptor> { ((fname("f"), fdesc("I")), (fname(to), fdesc("I"))) };
+		let mut classes = Vec::with_capacity(3);
+		classes.push(hook::ClassParts { from: oc("C"), to: &to_c, fields: if in_c { vec![entry("fc")] } else { Vec::new() }, methods: Vec::new() });
+		classes.push(hook::ClassParts { from: oc("P"), to: &to_p, fields: if in_p { vec![entry("fp")] } else { Vec::new() }, methods: Vec::new() });
+		classes.push(hook::ClassParts { from: oc("Q"), to: &to_q, fields: if in_q { vec![entry("fq")] } else { Vec::new() }, methods: Vec::new() });
+		let mut of_c = IndexSet::new();
+		if q_first { of_c.insert(oc("Q").to_owned()); of_c.insert(oc("P").to_owned()); } else { of_c.insert(oc("P").to_owned()); of_c.insert(oc("Q").to_owned()); }
+		let supers = Supers { of_c, of_p: IndexSet::new(), c_known: true };
+		let re = hook::b_remapper_from_parts::<2, Supers>(classes, &supers);
+		let via_p: Option<&[u8]> = if in_p { Some(b"fp") } else { None };
+		let via_q: Option<&[u8]> = if in_q { Some(b"fq") } else { None };
+		let mapped: Option<&[u8]> = if in_c { Some(b"fc") } else if q_first { via_q.or(via_p) } else { via_p.or(via_q) };
+		let got = re.map_field(oc("C"), qname, unsafe { duke::tree::field::FieldDescriptorSlice::from_inner_unchecked(JavaStr::from_str("I")) }).expect("lookup cannot fail");
+		let g = got.name.as_inner().as_bytes();
+		match (n == b'f', mapped) {
+			(true, Some(w)) => assert!(bytes_eq(g, w), "field must map through the nearest declaring super type in declaration order"),
+			_ => assert!(g.len() == 1 && g[0] == n, "an unmapped member keeps its name"),
+		}
+		witness!(n == b'f', "the mapped field is queried");
+		witness!(n != b'f', "another field is queried");
+		core::mem::forget(got); core::mem::forget(re);
+		core::mem::forget((supers, to_c, to_p, to_q));
+	}
+
 	pub fn body(full: bool) {
 		// who declares (= has a mapping for) the field f:I ?
 		let in_c = sym::bool(); let in_p = sym::bool(); let in_q = sym::bool(); let in_g = if full { sym::bool() } else { false };
@@ -219,6 +252,7 @@ mod inherit {
 	}
 }
 
+//# {"id":"c06_inheritance_cfgs","module":"c06_remap::inherit_proofs","props":["C06"],"tier":"thorough","cap":3600,"bound":"member remapper built from explicit tables (hook b_remapper_from_parts): hierarchy C -> [P, Q] / [Q, P]; 9 concrete configurations of who declares f:I (own class; every subset of the two super types in both declaration orders), the queried field name is a symbolic byte (every valid one-byte name); model indexmap; unwind 8","fns":["quill::remapper::BRemapperImpl::map_field_fail","BRemapper::map_field","TupleReq/TupleKey Equivalent"]}
 //# {"id":"c06_inheritance_order","module":"c06_remap::inherit_proofs","props":["C06"],"tier":"thorough","cap":3600,"bound":"member remapper built from explicit tables (hook b_remapper_from_parts): hierarchy C -> [P, Q] in either order; every subset of {C, P, Q} declaring f:I (16 configurations, symbolic); model indexmap; unwind 8","fns":["quill::remapper::BRemapperImpl::map_field_fail","BRemapper::map_field","TupleReq/TupleKey Equivalent"]}
 //# {"id":"c06_inheritance_search","module":"c06_remap::inherit_proofs","props":["C06"],"tier":"thorough","cap":3600,"bound":"member remapper built from explicit tables (hook b_remapper_from_parts): hierarchy C -> [P, Q] (either order), P -> [G]; every subset of {C, P, Q, G} declaring f:I, P mapped or not, C known to the inheritance provider or not (128 configurations, symbolic); model indexmap; unwind 8","fns":["quill::remapper::BRemapperImpl::{map_field_fail}","BRemapper::map_field","TupleReq/TupleKey Equivalent"]}
 pub mod inherit_proofs {
@@ -228,6 +262,16 @@ pub mod inherit_proofs {
 		fn c06_inheritance_search() { super::inherit::body(true); }
 		#[cfg_attr(kani, kani::unwind(8))]
 		fn c06_inheritance_order() { super::inherit::body(false); }
+		#[cfg_attr(kani, kani::unwind(8))]
+		fn c06_inheritance_cfgs() {
+			use super::inherit::cfg_body as c;
+			// nine concrete configurations (constant map shapes in each arm), symbolic queried name
+			match crate::sym::u8_in(0, 8) {
+				0 => c(true, true, true, false),
+				1 => c(false, false, false, false), 2 => c(false, true, false, false), 3 => c(false, false, true, false), 4 => c(false, true, true, false),
+				5 => c(false, false, false, true), 6 => c(false, true, false, true), 7 => c(false, false, true, true), _ => c(false, true, true, true),
+			}
+		}
 	}
 }
-pub use inherit_proofs::{c06_inheritance_search, c06_inheritance_order};
+pub use inherit_proofs::{c06_inheritance_search, c06_inheritance_order, c06_inheritance_cfgs};
